@@ -25,7 +25,7 @@ RtFails(r) ==
     THEN (IF StartsWith(r.err, "write:") THEN {} ELSE {F("rt.refuse", "the writer must reject the value")})
     ELSE IF StartsWith(r.err, "write:") THEN {F("rt.write", "no error")}
     ELSE UNION {
-        IF r.fmt = "cmdseq" /\ r.size # CmdSeqSize(r.orig) THEN {F("rt.size", CmdSeqSize(r.orig))} ELSE {},
+        \* (the byte layout is the writer's: CmdSeqSize in SecondaryOps documents today's, it is not demanded)
         IF StartsWith(r.err, "read:") THEN {F("rt.read", "no error")}
         ELSE IF r.fmt = "pcf"
         THEN UNION {ValueFails("rt.value", r.back, r.orig),     \* (the reader no longer lists 'name' among the options)
@@ -109,7 +109,6 @@ ImgEncFails(r) ==
     ELSE IF ~ImageRoundTrips(r.enc, r.chars) THEN {}
     ELSE IF r.err # "" THEN {F("imgenc.read", "no error")}
     ELSE UNION {
-        IF r.file_sounds # r.want_sounds THEN {F("imgenc.file_sounds", r.want_sounds)} ELSE {},
         IF r.read_sounds # r.want_sounds THEN {F("imgenc.read_sounds", r.want_sounds)} ELSE {},
         UNION {ValueFails("imgenc.scene", r.read_scenes[k], BinScene(r.want_scenes[k])) : k \in 1..Len(r.want_scenes)}}
 
